@@ -34,6 +34,46 @@ class Sc:
         self.tainted_ws = set()  # texts re-touched whitespace-only after being committed as AI (known finding)
         self.overlap = False     # a later commit of the rewritten range touches a file an earlier one touched
         self.human_replaced = set()   # texts a person wrote in place of an existing line
+        # --- script for the Lean model (Model/Rewrite.lean): what was done, with git's own results as inputs
+        self.mops = []           # global op list; per-file payloads are dicts path -> value
+        self.ids = {}            # norm(text) -> line id
+        self.obs = []            # one per "blame" op: {path: {id: session hash}}
+        self.model_ok = True     # False: the scenario uses an operation the model does not have
+        self.mfiles = set()
+
+    # ------------------------------------------------------------ model script helpers
+    def lid(self, t):
+        k = norm(t)
+        if k not in self.ids:
+            self.ids[k] = len(self.ids) + 1
+        return self.ids[k]
+
+    def mrec(self, k, **kw):
+        self.mops.append(dict(k=k, **kw))
+
+    def tree_ids(self, rev=None):
+        """{path: [ids]} of every known file, in the working tree or at a revision"""
+        out = {}
+        for p in sorted(self.mfiles):
+            if rev is None:
+                ls = self.lines(p)
+            else:
+                rc, c, _ = self.r.plain_git("show", f"{rev}:{p}")
+                ls = (c.split("\n")[:-1] if c.endswith("\n") else (c.split("\n") if c else [])) if rc == 0 else []
+            out[p] = [self.lid(l) for l in ls]
+        return out
+
+    def new_commits(self, since):
+        rc, out, _ = self.r.plain_git("rev-list", "--reverse", f"{since}..HEAD")
+        return [x for x in out.split() if x]
+
+    def news_since(self, since):
+        per = {p: [] for p in self.mfiles}
+        for sha in self.new_commits(since):
+            t = self.tree_ids(sha)
+            for p in self.mfiles:
+                per[p].append(t[p])
+        return per
 
     # ------------------------------------------------------------ content helpers
     def fresh(self, who):
@@ -85,16 +125,26 @@ class Sc:
         self.write(p, ls)
         if who != "human":
             self.r.ai_checkpoint(who, [p], tool=S.TOOL)
+        self.mfiles.add(p)
+        self.mrec("human" if who == "human" else "ai", path=p, s=int(who[1:]) if who != "human" else 0, ys=[self.lid(l) for l in ls])
         self.log.append({"op": "edit", "who": who, "path": p, "where": where, "kind": kind})
 
     def git(self, *args, env=None):
         rc, out, err = self.r.git(*args, env=env)
         self.log.append({"op": "git", "args": list(args), "rc": rc})
+        if args[0] == "switch" and rc == 0:
+            if "-c" in args:
+                self.mrec("branch", name=args[-1])
+            else:
+                self.mrec("switch", name=args[-1])
         return rc
 
     def commit(self, msg="c", extra=()):
         self.git("add", "-A")
+        self.mrec("stageAll")
         rc = self.git("commit", "-q", "-m", msg, *extra)
+        if rc == 0:
+            self.mrec("commit")
         return self.r.head() if rc == 0 else None
 
     # ------------------------------------------------------------ oracles
@@ -127,6 +177,9 @@ class Sc:
         rc, out, _ = r.plain_git("status", "--porcelain", "-z")
         dirty = {e[3:] for e in out.split("\0") if e}
         rc, out, _ = r.plain_git("ls-files", "-z")
+        ob = {}
+        self.obs.append(ob)
+        self.mrec("blame", where=where)
         for p in [x for x in out.split("\0") if x]:
             if p in dirty:
                 continue
@@ -138,6 +191,7 @@ class Sc:
                 self.failures.append(("blame-failed", {"where": where, "path": p}))
                 continue
             got = e2e.blame_line_hashes(bj)
+            ob[p] = {str(self.lid(t)): got[i] for i, t in enumerate(ls, 1) if got.get(i)}
             for i, t in enumerate(ls, 1):
                 g = self.ghost.get(norm(t), "?")
                 if g == "?":
@@ -172,7 +226,10 @@ class Sc:
     def base(self, nfiles=2, nlines=8):
         self.files = ["a.txt", "src/b.rs", "c.md"][:nfiles]
         for p in self.files:
-            self.write(p, [self.fresh("human") for _ in range(nlines)])
+            ls = [self.fresh("human") for _ in range(nlines)]
+            self.write(p, ls)
+            self.mfiles.add(p)
+            self.mrec("human", path=p, s=0, ys=[self.lid(l) for l in ls])
         self.commit("base")
 
     def feature_commits(self, n, files=None, where="middle", disjoint=False):
@@ -231,6 +288,9 @@ class Sc:
             rc = self.git("rebase", "main")
         if rc != 0:
             self.git("rebase", "--abort")
+            self.mrec("aborted")
+        else:
+            self.mrec("rebase", onto="main", drop=n, news=self.news_since("main"))
         self.check_tip("after rebase")
         return f"rebase:{interactive or ('onto' if onto else 'plain')}:{mode}"
 
@@ -249,15 +309,22 @@ class Sc:
         before = self.snapshot_private()
         rc = self.git("rebase", "main")
         if rc == 0:
+            self.mrec("rebase", onto="main", drop=2, news=self.news_since("main"))
             return "rebase-conflict:none"
         if action == "abort":
             self.git("rebase", "--abort")
+            self.mrec("aborted")
             self.expect_unchanged(before, "rebase-abort")
             self.check_tip("after rebase --abort")
         elif action == "skip":
-            self.git("rebase", "--skip")
+            rc = self.git("rebase", "--skip")
+            if rc == 0:
+                self.mrec("rebase", onto="main", drop=2, news=self.news_since("main"))
+            else:
+                self.model_ok = False
             self.check_tip("after rebase --skip")
         else:
+            self.model_ok = False      # conflict resolution inside a stopped rebase: not in the model
             who = rng.pick(["human", "s2"])
             ls = [l for l in self.lines(p) if not l.startswith(("<<<<<<<", "=======", ">>>>>>>", "|||||||"))]
             if who != "human":
@@ -280,16 +347,21 @@ class Sc:
         shas = self.feature_commits(2 + rng.below(2))
         self.git("switch", "-q", "main")
         self.upstream_commits(1, rng.pick(["other-file", "above", "below"]))
+        orig = self.r.head()
         if mode == "single":
             rc = self.git("cherry-pick", shas[0])
         elif mode == "range":
             rc = self.git("cherry-pick", f"{shas[0]}^..{shas[-1]}")
         else:
+            self.model_ok = False      # cherry-pick -n: not in the model (unsupported by the code: known finding)
             rc = self.git("cherry-pick", "-n", shas[0])
             if rc == 0:
                 self.commit("picked -n")
         if rc != 0:
             self.git("cherry-pick", "--abort")
+            self.mrec("aborted")
+        elif mode != "n":
+            self.mrec("cherryPick", src="feature", news=self.news_since(orig))
         self.check_tip("after cherry-pick")
         return f"cherry-pick:{mode}"
 
@@ -299,7 +371,11 @@ class Sc:
         for _ in range(1 + self.rng.below(3)):
             self.edit(self.rng.pick(["s1", "s2", "human"]), self.rng.pick(self.files), where=self.rng.pick(["top", "middle", "bottom"]))
         self.git("add", "-A")
-        self.git("commit", "-q", "--amend", "-m", "amended")
+        self.mrec("stageAll")
+        if self.git("commit", "-q", "--amend", "-m", "amended") == 0:
+            self.mrec("amend")
+        else:
+            self.model_ok = False
         self.check_tip("after amend")
         return "amend"
 
@@ -311,8 +387,11 @@ class Sc:
         self.upstream_commits(1, self.rng.pick(["other-file", "above", "below"]))
         rc = self.git("merge", "--squash", "feature")
         if rc == 0:
-            self.git("commit", "-q", "-m", "squashed")
+            self.mrec("squash", src="feature", ys=self.tree_ids())
+            if self.git("commit", "-q", "-m", "squashed") == 0:
+                self.mrec("commit")
         else:
+            self.model_ok = False
             self.git("reset", "--hard")
         self.check_tip("after merge --squash")
         return "merge-squash"
@@ -323,7 +402,10 @@ class Sc:
         self.feature_commits(n + 1)
         if self.rng.chance(1, 2):
             self.edit(self.rng.pick(["s1", "human"]), self.rng.pick(self.files), where="top")   # uncommitted work on top
-        self.git("reset", mode, f"HEAD~{n}")
+        if self.git("reset", mode, f"HEAD~{n}") == 0:
+            self.mrec("reset", n=n, soft=(mode == "--soft"))
+        else:
+            self.model_ok = False
         self.commit("recommitted")
         self.check_tip(f"after reset {mode} + commit")
         return f"reset{mode}"
@@ -335,17 +417,24 @@ class Sc:
         if self.rng.chance(1, 2):
             self.edit("human", p, where="bottom")
         rc = self.git("stash")
+        if rc == 0:
+            self.mrec("stashPush")
+        else:
+            self.model_ok = False
         if upstream != "none":
             self.upstream_commits(1, upstream)
         rc = self.git("stash", "pop")
         if rc != 0:
+            self.model_ok = False
             self.git("checkout", "-f"); self.git("stash", "drop")
             return f"stash:{upstream}:conflict"
+        self.mrec("stashPop", ys=self.tree_ids())
         self.commit("after pop")
         self.check_tip("after stash pop + commit")
         return f"stash:{upstream}"
 
     def t_switch_carry(self, how):
+        self.model_ok = False          # carrying uncommitted work across a switch: not in the model
         self.base()
         self.git("branch", "other")
         self.git("switch", "-q", "other"); self.edit("human", "other.txt", where="bottom"); self.commit("other work")
@@ -367,6 +456,7 @@ class Sc:
         self.feature_commits(1)
         self.edit("s1", self.files[0], where="middle")       # pending AI work
         self.r.ai("checkpoint")
+        self.mrec("hcp")
         before = self.snapshot_private()
         which = self.rng.pick(["commit-dry-run", "cherry-pick-bad", "rebase-dirty", "merge-bad", "reset-bad", "stash-pop-empty",
                                "commit-nothing-staged", "checkout-bad-branch"])
@@ -378,6 +468,7 @@ class Sc:
         elif which == "stash-pop-empty": self.git("stash", "pop")
         elif which == "commit-nothing-staged": self.git("commit", "-m", "nothing")
         else: self.git("checkout", "no-such-branch")
+        self.mrec("aborted")
         self.expect_unchanged(before, which)
         self.commit("finally")
         self.check_tip("after no-op + commit")
@@ -442,19 +533,92 @@ def run_one(args, _attempt=0):
             sc = Sc(env, seed)
             tag = fn(sc)
             fam = family(tname, sc)
+            md = {"ok": sc.model_ok, "mops": sc.mops, "obs": sc.obs, "files": sorted(sc.mfiles)}
             return tname, tag, [(sig if sig == "human-tweak-of-ai-line-still-ai" else f"{fam}:{sig}", d)
-                                for sig, d in sc.failures], sc.log
+                                for sig, d in sc.failures], sc.log, md
     except Exception as ex:
         if _attempt < 2:
             return run_one(args, _attempt + 1)     # transient environment trouble (busy machine): retry
-        return tname, "exception", [("runner-exception", {"error": repr(ex), "trace": traceback.format_exc()[-1500:]})], []
+        return tname, "exception", [("runner-exception", {"error": repr(ex), "trace": traceback.format_exc()[-1500:]})], [], None
+
+
+def model_script(mops, path):
+    """the per-file script for the Lean driver op `rw_run`"""
+    out = []
+    for o in mops:
+        k = o["k"]
+        if k in ("human", "ai"):
+            if o["path"] == path:
+                out.append({"k": k, "s": o["s"], "ys": o["ys"]})
+        elif k in ("rebase", "cherryPick"):
+            n = len(next(iter(o["news"].values()), []))
+            out.append({**o, "news": o["news"].get(path, [[] for _ in range(n)])})
+        elif k in ("squash", "stashPop"):
+            out.append({**o, "ys": o["ys"].get(path, [])})
+        else:
+            out.append(o)
+    return out
+
+
+SESSION_HASH = {}
+
+
+def session_hash(n):
+    if n not in SESSION_HASH:
+        SESSION_HASH[n] = S.hash_of(f"s{n}")
+    return SESSION_HASH[n]
+
+
+def model_phase(res, jobs, outs):
+    """Correspondence: the Lean model (Model/Rewrite.lean), fed what the runner did and the file
+    contents git produced for rewritten commits, predicts blame at every observation point."""
+    reqs, index = [], []
+    for (seed, tname), o in zip(jobs, outs):
+        md = o[4]
+        if not md or not md["ok"]:
+            res.tag(["model=not-modelled"])
+            continue
+        res.tag(["model=compared"])
+        for p in md["files"]:
+            reqs.append({"op": "rw_run", "script": model_script(md["mops"], p)})
+            index.append((seed, tname, p, md, o[2]))
+    if not reqs:
+        return
+    resps = C.run_driver(reqs)
+    ncmp = nbad = nexplained = 0
+    first = None
+    for (seed, tname, p, md, failures), req, r in zip(index, reqs, resps):
+        mobs = r.get("obs")
+        if mobs is None:
+            nbad += 1
+            first = first or {"seed": seed, "template": tname, "path": p, "driver": r}
+            continue
+        explained = any(not sig.startswith("stash") for sig, _ in failures)
+        for j, real in enumerate(md["obs"]):
+            if p not in real or j >= len(mobs):
+                continue
+            pred = {str(y): session_hash(s_) for y, s_ in mobs[j]["blame"]}
+            ncmp += 1
+            if pred != real[p]:
+                if explained:
+                    nexplained += 1      # the ghost oracle already reports this scenario (finding or violation)
+                    continue
+                nbad += 1
+                first = first or {"seed": seed, "template": tname, "path": p, "observation": j, "predicted": pred,
+                                  "observed": real[p], "request": req}
+    res.obligation("correspondence:rewrite-e2e (Rewrite model's predicted blame vs blame of the binary at every tip)", nbad == 0, "correspondence")
+    cs = res.extra.setdefault("correspondence", {}).setdefault("rewrite-e2e", {"compared": 0, "disagreements": 0, "explained_by_oracle": 0})
+    cs["compared"] += ncmp; cs["disagreements"] += nbad; cs["explained_by_oracle"] += nexplained
+    if nbad:
+        res.broken_tie("correspondence:rewrite-e2e", {"disagreements": nbad, "of": ncmp, "first": first})
 
 
 def phase(res, seeds, threads=16):
     jobs = [(s, TEMPLATES[i % len(TEMPLATES)][0]) for i, s in enumerate(seeds)]
     with concurrent.futures.ThreadPoolExecutor(threads) as ex:
         outs = list(ex.map(run_one, jobs))
-    for (seed, tname), (_, tag, failures, log) in zip(jobs, outs):
+    model_phase(res, jobs, outs)
+    for (seed, tname), (_, tag, failures, log, _md) in zip(jobs, outs):
         res.count_case(json.dumps(log, ensure_ascii=False), nontrivial=len(log) > 4)
         res.tag([f"template={tname}", f"variant={tag}"])
         res.sample({"seed": seed, "template": tname, "log": log[:14]}, cap=3)
